@@ -17,10 +17,13 @@ JOBS = {
         level="exploration",
         rule="seed -> plan (top-level and in-action schedule/cancel/reschedule/reprioritise/pattern/clear steps) -> real event queue vs exact model; "
              "distinct = distinct trace hashes; non-trivial = >= 4 events and at least one step issued from inside a running action",
-        jobs=[J("events", "rel", 120000, 3000000), J("events", "san", 15000, 300000)],
+        jobs=[J("events", "rel", 120000, 3000000), J("events", "san", 15000, 300000),
+              # application events among processes (some of them with a process as their subject): they must stay scheduled until they run or are cancelled by the application
+              J("procs", "rel", 40000, 1000000, cfg="mix=wait,faults=1", only="C01"), J("procs", "san", 4000, 100000, cfg="mix=wait,faults=2", only="C01")],
         wall_quick=50, wall_thorough=900, crash_is_violation=True,
         assumptions=["FIFO among equal (time, priority) is judged by issue order; handles only need to be non-zero and distinct among pending events",
-                     "pattern_find may return any matching event (order unspecified by the header)"],
+                     "pattern_find may return any matching event (order unspecified by the header)",
+                     "a second generator (procs engine, wait mix) schedules application events while processes hold, wait, are interrupted, stopped and restarted; a third of those events name a process as their subject; after every library event each of them must still be scheduled unless it ran or the plan cancelled it"],
     ),
     "C02": dict(
         level="exploration",
